@@ -633,7 +633,9 @@ def ravel_dimensions(
         True
     """
     data_array = move_dimensions_to_end(data_array, dimensions)
-    new_shape = data_array.shape[:-len(dimensions)] + (-1,)
+    # numpy can not infer a `-1` length when some other dimension is empty
+    linear_size = int(numpy.prod(data_array.shape[-len(dimensions):]))
+    new_shape = data_array.shape[:-len(dimensions)] + (linear_size,)
     new_data = data_array.values.reshape(new_shape)
     existing_dims = data_array.dims[:-len(dimensions)]
 
